@@ -1,18 +1,22 @@
 // C12 correspondence harness for confmap (injected by overlay; package-internal).
 //
 // Drives the REAL Resolver (NewResolver + Resolve) with map-backed providers and records, per case,
-//   cfg  = (default scheme, registered schemes, provider table keyed by "scheme:opaque")
-//   srcs = the source values (also reachable as provider entries "src:<i>")
-//   obs  = error class | (unsanitised tree, ToStringMap(), Unmarshal of every top-level key into a
-//          string / int / []string / map[string]string field)
+//
+//	cfg  = (default scheme, registered schemes, provider table keyed by "scheme:opaque")
+//	srcs = the source values (also reachable as provider entries "src:<i>")
+//	obs  = error class | (unsanitised tree, ToStringMap(), Unmarshal of every top-level key into a
+//	       string / int / []string / map[string]string field)
+//
 // as a Coq term of type C12.Harness.wcase.  Three generated families:
-//   tok   well-formed token strings (Lit | Esc | Dollar | Ref) over reference-free providers: the DIRECT
-//         ORACLE is a token-level reference interpreter written here (independent of the Coq model);
-//   wild  grammar soup: runs of $, nested / adjacent / repeated / escaped references, unterminated ${,
-//         stray }, bad schemes, $ in names, provider errors, typed values, provider values that contain
-//         references again, reference cycles (1 reference per cycle member: linear growth only);
-//   merge 1-4 nested source maps with nils, lists, empty maps: DIRECT ORACLE = right-biased merge
-//         written here.
+//
+//	tok   well-formed token strings (Lit | Esc | Dollar | Ref) over reference-free providers: the DIRECT
+//	      ORACLE is a token-level reference interpreter written here (independent of the Coq model);
+//	wild  grammar soup: runs of $, nested / adjacent / repeated / escaped references, unterminated ${,
+//	      stray }, bad schemes, $ in names, provider errors, typed values, provider values that contain
+//	      references again, reference cycles (1 reference per cycle member: linear growth only);
+//	merge 1-4 nested source maps with nils, lists, empty maps: DIRECT ORACLE = right-biased merge
+//	      written here.
+//
 // Keys never contain the "::" delimiter (koanf flatten/unflatten is outside the model).
 package confmap
 
@@ -249,12 +253,20 @@ func vDecode(conf *Conf, key string, typ reflect.Type) (reflect.Value, bool) {
 	return p.Elem().Field(0), true
 }
 
-func vDecTerm(conf *Conf, key string) (string, *string) {
-	var sres *string
+type vDec struct {
+	s  *string
+	l  []string // nil = decode error
+	lo bool
+	m  map[string]string
+	mo bool
+}
+
+func vDecTerm(conf *Conf, key string) (string, vDec) {
+	var d vDec
 	sTerm := "None"
 	if v, ok := vDecode(conf, key, reflect.TypeOf("")); ok {
 		s := v.String()
-		sres = &s
+		d.s = &s
 		sTerm = "(Some " + vStr(s) + ")"
 	}
 	iTerm := "None"
@@ -264,25 +276,29 @@ func vDecTerm(conf *Conf, key string) (string, *string) {
 	lTerm := "None"
 	if v, ok := vDecode(conf, key, reflect.TypeOf([]string(nil))); ok {
 		it := make([]string, v.Len())
+		d.l, d.lo = make([]string, v.Len()), true
 		for i := range it {
-			it[i] = vStr(v.Index(i).String())
+			d.l[i] = v.Index(i).String()
+			it[i] = vStr(d.l[i])
 		}
 		lTerm = "(Some " + vList(it) + ")"
 	}
 	mTerm := "None"
 	if v, ok := vDecode(conf, key, reflect.TypeOf(map[string]string(nil))); ok {
 		ks := []string{}
+		d.m, d.mo = map[string]string{}, true
 		for _, k := range v.MapKeys() {
 			ks = append(ks, k.String())
 		}
 		sort.Strings(ks)
 		it := make([]string, len(ks))
 		for i, k := range ks {
-			it[i] = vPair(vStr(k), vStr(v.MapIndex(reflect.ValueOf(k)).String()))
+			d.m[k] = v.MapIndex(reflect.ValueOf(k)).String()
+			it[i] = vPair(vStr(k), vStr(d.m[k]))
 		}
 		mTerm = "(Some " + vList(it) + ")"
 	}
-	return "(" + vStr(key) + ", " + sTerm + ", " + iTerm + ", " + lTerm + ", " + mTerm + ")", sres
+	return "(" + vStr(key) + ", " + sTerm + ", " + iTerm + ", " + lTerm + ", " + mTerm + ")", d
 }
 
 type vObs struct {
@@ -290,6 +306,7 @@ type vObs struct {
 	errCode int // -1 = ok
 	tsm     map[string]any
 	strs    map[string]*string
+	decs    map[string]vDec
 	hung    bool
 }
 
@@ -311,10 +328,13 @@ func vObserve(c *vCfg, nsrc int) vObs {
 	sort.Strings(ks)
 	dec := make([]string, len(ks))
 	strs := map[string]*string{}
+	decs := map[string]vDec{}
 	for i, k := range ks {
-		dec[i], strs[k] = vDecTerm(res.conf, k)
+		var d vDec
+		dec[i], d = vDecTerm(res.conf, k)
+		strs[k], decs[k] = d.s, d
 	}
-	return vObs{term: "(WObsOk " + vW(tree) + " " + vW(tsm) + " " + vList(dec) + ")", errCode: -1, tsm: tsm, strs: strs}
+	return vObs{term: "(WObsOk " + vW(tree) + " " + vW(tsm) + " " + vList(dec) + ")", errCode: -1, tsm: tsm, strs: strs, decs: decs}
 }
 
 func vCaseTerm(c *vCfg, srcs []any, o vObs) string {
@@ -635,6 +655,124 @@ func vGenValue(r *vRand, c *vCfg, depth int, st map[string]int, strGen func() st
 	return map[string]any{}
 }
 
+// ---- family 4 helpers: deep values ------------------------------------------------------------------------
+type vItem struct{ text, sem string }
+
+type vDeep struct {
+	c            *vCfg
+	names        []string // level 0
+	l1           map[string]vItem
+	ylSem, ymSem string
+	ylItems      []string
+	ymItems      map[string]string
+	ylOK, ymOK   bool
+	yeOK         bool
+	yeWant       any
+}
+
+// refName: "env:X", or "X" under the default scheme
+func (d *vDeep) refName(n string) string {
+	if d.c.def == "env" {
+		return n
+	}
+	return "env:" + n
+}
+
+func (d *vDeep) semOf(ts []vTok) string {
+	var sb strings.Builder
+	for _, t := range ts {
+		switch t.kind {
+		case 0:
+			sb.WriteString(t.text)
+		case 1, 2:
+			sb.WriteString("$")
+		case 3:
+			key := t.text
+			if !strings.Contains(key, ":") {
+				key = d.c.def + ":" + key
+			}
+			if it, ok := d.l1[key]; ok {
+				sb.WriteString(it.sem)
+				continue
+			}
+			e := d.c.tbl[key]
+			if e.hasStr {
+				sb.WriteString(e.str)
+			} else {
+				sb.WriteString(e.raw.(string))
+			}
+		}
+	}
+	return sb.String()
+}
+
+// a member: a token string that starts with a letter (so it is anchored and YAML-quotable), over the given names
+func (d *vDeep) itemOver(r *vRand, names []string, must string) vItem {
+	ts := []vTok{{0, string("abcxyz"[r.Intn(6)])}}
+	if must != "" {
+		ts = append(ts, vTok{3, must})
+	}
+	ts = append(ts, vGenTokens(r, d.c, names)...)
+	if len(ts) > 0 && ts[len(ts)-1].kind == 2 { // a lone $ at the very end would meet the closing quote: fine, but keep it simple
+		ts = append(ts, vTok{0, "e"})
+	}
+	return vItem{vTokString(ts), d.semOf(ts)}
+}
+
+func (d *vDeep) item(r *vRand) vItem {
+	all := append(append([]string{}, d.names...), "R1", "R2")
+	return d.itemOver(r, all, "")
+}
+
+func vNewDeep(r *vRand, c *vCfg) *vDeep {
+	d := &vDeep{c: c, l1: map[string]vItem{}}
+	d.names = vTokTable(r, c)
+	for _, n := range []string{"R1", "R2"} {
+		it := d.itemOver(r, d.names, "env:"+d.names[r.Intn(3)])
+		it.text, it.sem = "r"+it.text+"z", "r"+it.sem+"z"
+		c.put("env:"+n, &vEntry{raw: it.text})
+		d.l1["env:"+n] = it
+	}
+	all := append(append([]string{}, d.names...), "R1", "R2")
+	// YAML flow list / map of double-quoted members; member j is forced to mention a distinct name
+	n := 3 + r.Intn(3)
+	perm := []string{"env:A", "env:B", "env:C", "env:N", "env:R1", "env:R2"}
+	for j := len(perm) - 1; j > 0; j-- {
+		k := r.Intn(j + 1)
+		perm[j], perm[k] = perm[k], perm[j]
+	}
+	var yl, ym, sl, sm []string
+	d.ymItems = map[string]string{}
+	for j := 0; j < n; j++ {
+		it := d.itemOver(r, all, perm[j])
+		if r.Intn(4) == 0 { // a member that IS one reference (typed inside the list, text for a string target)
+			it = vItem{"${" + perm[j] + "}", d.semOf([]vTok{{3, perm[j]}})}
+		}
+		yl = append(yl, "\""+it.text+"\"")
+		sl = append(sl, "\""+it.sem+"\"")
+		d.ylItems = append(d.ylItems, it.sem)
+		it2 := d.itemOver(r, all, perm[(j+1)%len(perm)])
+		key := "f" + strconv.Itoa(j)
+		ym = append(ym, "\""+key+"\": \""+it2.text+"\"")
+		sm = append(sm, "\""+key+"\": \""+it2.sem+"\"")
+		d.ymItems[key] = it2.sem
+	}
+	ylText, ymText := "["+strings.Join(yl, ", ")+"]", "{"+strings.Join(ym, ", ")+"}"
+	d.ylSem, d.ymSem = "["+strings.Join(sl, ", ")+"]", "{"+strings.Join(sm, ", ")+"}"
+	el, em := vYAML(ylText), vYAML(ymText)
+	_, d.ylOK = el.raw.([]any)
+	_, d.ymOK = em.raw.(map[string]any)
+	c.put("env:YL", el)
+	c.put("env:YM", em)
+	mi, li := d.itemOver(r, all, ""), d.itemOver(r, all, "")
+	c.put("env:MP", &vEntry{raw: map[string]any{"a": 1, "s": mi.text}})
+	ee := vYAML("[\"${env:MP}\", \"" + li.text + "\"]")
+	_, d.yeOK = ee.raw.([]any)
+	d.yeWant = []any{map[string]any{"a": 1, "s": mi.sem}, li.sem}
+	c.put("env:YE", ee)
+	return d
+}
+
 // ---- family 3: merges ---------------------------------------------------------------------------------------
 func vMergeOracle(dst map[string]any, src map[string]any) {
 	for k, v := range src {
@@ -869,14 +1007,17 @@ func TestVerifC12(t *testing.T) {
 		nk := 1 + r.Intn(3)
 		for k := 0; k < nk; k++ {
 			key := "k" + strconv.Itoa(k)
-			switch r.Pick(25, 60, 15) {
+			switch r.Pick(25, 55, 20) {
 			case 0:
 				m[key] = vGenValue(r, c, 0, st, func() string { return vGenWild(r, c, 3, st) })
 			case 1:
 				m[key] = vGenWild(r, c, 3, st)
 			case 2: // the whole value is one reference (typed value + original text)
-				all := c.order[:len(c.order)-0]
+				all := c.order
 				nm := all[r.Intn(len(all))]
+				if r.Bool() { // half of them: entries with a typed scalar value and a text
+					nm = []string{"env:N", "env:F", "env:T", "env:NIL", "env:W", "file:N"}[r.Intn(6)]
+				}
 				if strings.HasPrefix(nm, "env:") && def != "" && r.Bool() {
 					nm = nm[4:]
 				}
@@ -932,6 +1073,229 @@ func TestVerifC12(t *testing.T) {
 					}
 				}
 			}
+		}
+	}
+
+	// -- family 4: deep values.  Lists and maps (in the source, and as YAML provider values reached through ONE
+	// whole-value or embedded reference) whose members are token strings needing DIFFERENT numbers of rounds
+	// (references to level-0 entries and to level-1 entries that contain references again), consumed through
+	// their text: string / []string / map[string]string targets.  Direct oracle = the token interpreter
+	// applied member by member (and to the provider's original YAML text).
+	nDeep := vBudget(220, 12)
+	for i := 0; i < nDeep; i++ {
+		r := vNewRand(uint64(4000003 + i))
+		def := ""
+		if r.Intn(3) > 0 {
+			def = "env"
+		}
+		c := vNewCfg(def, "env", "tt")
+		d := vNewDeep(r, c)
+		m := map[string]any{}
+		wantS := map[string]string{}
+		wantL := map[string][]string{}
+		wantM := map[string]map[string]string{}
+		wantT := map[string]any{}
+		for k, nk := 0, 1+r.Intn(3); k < nk; k++ {
+			key := "k" + strconv.Itoa(k)
+			switch r.Pick(26, 13, 13, 8, 12, 12, 9, 7) {
+			case 7: // a YAML list one of whose members IS a reference to a value WITHOUT text (a map from a custom
+				// provider): the typed value resolves, the original text cannot be expanded and is dropped
+				m[key] = "${" + d.refName("YE") + "}"
+				if d.yeOK {
+					wantT[key] = d.yeWant
+				}
+				st["deep-original-text-unexpandable"]++
+			case 6: // maps inside a list in the source (expandValue's map case), members with different round counts
+				n := 1 + r.Intn(3)
+				l := make([]any, n)
+				w := make([]any, n)
+				for j := range l {
+					if r.Intn(3) == 0 {
+						it := d.item(r)
+						l[j], w[j] = it.text, it.sem
+						continue
+					}
+					mm, wm := map[string]any{}, map[string]any{}
+					for q, nq := 0, 1+r.Intn(3); q < nq; q++ {
+						it := d.item(r)
+						mm["g"+strconv.Itoa(q)], wm["g"+strconv.Itoa(q)] = it.text, it.sem
+					}
+					if r.Intn(3) == 0 {
+						it := d.item(r)
+						mm["h"], wm["h"] = []any{it.text, "plain"}, []any{it.sem, "plain"}
+					}
+					l[j], w[j] = mm, wm
+				}
+				m[key], wantT[key] = l, w
+				st["deep-source-list-of-maps"]++
+			case 0: // the whole value is one reference to a YAML list with >= 3 distinct references
+				m[key] = "${" + d.refName("YL") + "}"
+				if d.ylOK {
+					wantS[key], wantL[key] = d.ylSem, d.ylItems
+				}
+				st["deep-whole-yaml-list"]++
+			case 1:
+				m[key] = "${" + d.refName("YM") + "}"
+				if d.ymOK {
+					wantS[key], wantM[key] = d.ymSem, d.ymItems
+				}
+				st["deep-whole-yaml-map"]++
+			case 2: // the YAML text embedded in a longer string
+				pre, post := vGenLit(r, 1+r.Intn(3), false), vGenLit(r, r.Intn(3), false)
+				which, sem := "YL", d.ylSem
+				if r.Bool() {
+					which, sem = "YM", d.ymSem
+				}
+				m[key] = pre + "${" + d.refName(which) + "}" + post
+				wantS[key] = pre + sem + post
+				st["deep-embedded-yaml"]++
+			case 3: // a list inside a list provider value, reached through a level-1 reference
+				m[key] = []any{"${" + d.refName("YL") + "}", d.item(r).text}
+				st["deep-nested-list"]++
+			case 4: // a list in the source whose members need different numbers of rounds
+				n := 2 + r.Intn(4)
+				l := make([]any, n)
+				w := make([]string, n)
+				for j := range l {
+					it := d.item(r)
+					l[j], w[j] = it.text, it.sem
+				}
+				m[key], wantL[key] = l, w
+				st["deep-source-list"]++
+			case 5:
+				mm := map[string]any{}
+				w := map[string]string{}
+				for j, n := 0, 2+r.Intn(3); j < n; j++ {
+					it := d.item(r)
+					mm["f"+strconv.Itoa(j)], w["f"+strconv.Itoa(j)] = it.text, it.sem
+				}
+				m[key], wantM[key] = mm, w
+				st["deep-source-map"]++
+			}
+		}
+		srcs := []any{m}
+		c.setSources(srcs)
+		o := vObserve(c, 1)
+		term := vCaseTerm(c, srcs, o)
+		if hung(term, o) {
+			return
+		}
+		emit(true, term)
+		st["deep-cases"]++
+		if o.errCode != -1 {
+			out.Oracle("deep-text", term, fmt.Sprintf("every reference is resolvable: Resolve failed with class %d", o.errCode))
+			continue
+		}
+		for k, w := range wantS {
+			if sp := o.strs[k]; sp == nil || *sp != w {
+				got := "<decode error>"
+				if sp != nil {
+					got = *sp
+				}
+				out.Oracle("deep-text", term, fmt.Sprintf("key %s = %q: a string field receives %q, the reference interpreter gives %q", k, m[k], got, w))
+			}
+		}
+		for k, w := range wantL {
+			if dd := o.decs[k]; !dd.lo || !reflect.DeepEqual(append([]string{}, dd.l...), append([]string{}, w...)) {
+				out.Oracle("deep-text", term, fmt.Sprintf("key %s = %v: a []string field receives %q (ok=%v), the reference interpreter gives %q", k, m[k], dd.l, dd.lo, w))
+			}
+		}
+		for k, w := range wantT {
+			if !vEq(w, o.tsm[k]) {
+				out.Oracle("deep-text", term, fmt.Sprintf("key %s = %v: ToStringMap gives %v, the reference interpreter gives %v", k, m[k], o.tsm[k], w))
+			}
+		}
+		for k, w := range wantM {
+			if dd := o.decs[k]; !dd.mo || !reflect.DeepEqual(dd.m, w) {
+				out.Oracle("deep-text", term, fmt.Sprintf("key %s = %v: a map[string]string field receives %v (ok=%v), the reference interpreter gives %v", k, m[k], dd.m, dd.mo, w))
+			}
+		}
+	}
+
+	// -- family 5: '$' in reference names.  One key per case (the error is attributable); the providers HAVE an
+	// entry for every such name, so an implementation that lets the name through succeeds.  Direct oracle: a
+	// reference whose name contains '$' (single, paired, anywhere) must be refused with the '$' error.
+	nDol := vBudget(130, 12)
+	for i := 0; i < nDol; i++ {
+		r := vNewRand(uint64(5000003 + i))
+		def := []string{"", "tt", "env", "tt"}[r.Intn(4)]
+		c := vNewCfg(def, "env", "tt")
+		c.put("env:A", &vEntry{raw: "va"})
+		c.put("tt:A", &vEntry{raw: "ta"})
+		base := []string{"NAME", "N", "ab", "x1"}[r.Intn(4)]
+		var name string
+		pos := r.Intn(len(base) + 1)
+		ins := []string{"$", "$$", "$$$", "$$$$", "$x$", "$$y$$"}[r.Pick(25, 40, 10, 10, 7, 8)]
+		name = base[:pos] + ins + base[pos:]
+		if r.Intn(6) == 0 { // a second group elsewhere
+			name += []string{"$", "$$"}[r.Intn(2)]
+		}
+		st["dollar-name-ins-"+ins]++
+		scheme := []string{"tt", "env"}[r.Pick(70, 30)]
+		ref := "${" + scheme + ":" + name + "}"
+		isRef := true
+		if def != "" && r.Intn(3) == 0 {
+			ref, scheme = "${"+name+"}", def
+			st["dollar-name-default-scheme"]++
+		} else if def == "" && r.Intn(8) == 0 {
+			ref, isRef = "${"+name+"}", false // no default scheme: not a reference at all
+			st["dollar-name-not-a-reference"]++
+		}
+		for _, sc := range []string{"tt", "env"} {
+			c.put(sc+":"+name, &vEntry{raw: "leak"})
+			c.put(sc+":"+strings.ReplaceAll(name, "$$", "$"), &vEntry{raw: "leak1"})
+			c.put(sc+":"+strings.ReplaceAll(name, "$", ""), &vEntry{raw: "leak0"})
+		}
+		c.put("tt:P", &vEntry{raw: name})
+		c.put("tt:R", &vEntry{raw: "x" + ref + "y"})
+		c.put("tt:YL", vYAML("[\"a\", \""+ref+"\"]"))
+		var val any
+		escaped := false
+		switch r.Pick(22, 22, 10, 8, 10, 8, 8, 12) {
+		case 0:
+			val = ref
+			st["dollar-name-whole"]++
+		case 1:
+			val = vGenLit(r, 1+r.Intn(3), false) + ref + vGenLit(r, r.Intn(3), false)
+			st["dollar-name-embedded"]++
+		case 2:
+			val = []any{"p", ref}
+			st["dollar-name-in-list"]++
+		case 3:
+			val = map[string]any{"q": map[string]any{"r": "z" + ref}}
+			st["dollar-name-in-map"]++
+		case 4:
+			val = "${tt:R}" // inside a provider's text
+			st["dollar-name-in-provider-text"]++
+		case 5:
+			val = "${tt:YL}"
+			st["dollar-name-in-provider-list"]++
+		case 6:
+			val = "${" + scheme + ":${tt:P}}" // the name arrives through a nested reference
+			isRef = true
+			st["dollar-name-nested"]++
+		case 7:
+			val = "a$" + ref // escaped: kept as text
+			escaped = true
+			st["dollar-name-escaped"]++
+		}
+		srcs := []any{map[string]any{"k": val}}
+		c.setSources(srcs)
+		o := vObserve(c, 1)
+		term := vCaseTerm(c, srcs, o)
+		if hung(term, o) {
+			return
+		}
+		emit(true, term)
+		st["dollar-name-cases"]++
+		st[fmt.Sprintf("dollar-name-class-%d", o.errCode)]++
+		switch {
+		case escaped || !isRef:
+			if o.errCode != -1 {
+				out.Oracle("dollar-in-name", term, fmt.Sprintf("%q is not an active reference (escaped / no scheme) and must resolve; class %d", val, o.errCode))
+			}
+		case o.errCode != 1:
+			out.Oracle("dollar-in-name", term, fmt.Sprintf("value %v holds the reference %s whose name contains '$': it must be refused with the '$' error; class %d, result %v", val, ref, o.errCode, o.tsm["k"]))
 		}
 	}
 
